@@ -57,7 +57,10 @@ def gen(rng, tier, profile, count):
                 nv = rng.randint(2 if scheme == "brakedown_ml" else 1, 9 if big else 6)
                 c.set("max_degree", 1).set("num_vars", nv)
                 c.set("poly", [rf(rng) for _ in range(1 << nv)]).set("pt", [rf(rng) for _ in range(nv)])
-            c.meta["shapes"] = ["proofshape:" + scheme]
+            if scheme != "brakedown_ml" and rng.random() < 0.7:
+                # explicit parameters: security level, inverse rate (powers of two and not), well-formedness check
+                c.set("lig", rng.choice([80, 100, 128]), rng.choice([2, 3, 4, 5, 6, 7, 8]), rng.choice([0, 1]))
+            c.meta["shapes"] = ["proofshape:" + scheme + (":rho%s" % c.fields["lig"][1] if "lig" in c.fields else "")]
         else:
             which = rng.choice(["rs", "rs", "encode"])
             c = Case("c13-%s-%d" % (which, k), "c13")
